@@ -780,7 +780,7 @@ func main() {
 		},
 		Deadline: func(tier string) time.Duration {
 			if tier == "thorough" {
-				return 90 * time.Minute
+				return 25 * time.Minute
 			}
 			return 8 * time.Minute
 		},
